@@ -4,6 +4,9 @@ import json, subprocess, sys, xml.etree.ElementTree as ET, tempfile, os
 base = json.load(open("/root/.vp/BASELINE.json"))
 out = tempfile.mktemp(suffix=".xml")
 cmd = base["cmd"].replace("<file>", out)
+alt = os.environ.get("VERIF_BASELINE_DIR")  # run the suite of another checkout (scratch worktree)
+if alt:
+    cmd = cmd.replace("cd /repo", f"cd {alt} && export PYTHONPATH={alt}/src")
 subprocess.run(cmd, shell=True, capture_output=True)
 passed = set()
 for tc in ET.parse(out).getroot().iter("testcase"):
